@@ -382,9 +382,13 @@ def r4_fresh_results_and_slot_memos(ctx):
     ctx.count("single-slot memos reading a parameter", len(sites))
 
 
+from ..through_time import make_rule as _mk_tt
+_through_time = _mk_tt("C17")
+
 RULES = [
     ("C17-R1", r1_roles),
     ("C17-R2", r2_byte_arithmetic),
     ("C17-R3", r3_index_builder),
     ("C17-R4", r4_fresh_results_and_slot_memos),
+    ("C17-T1", _through_time),
 ]
